@@ -240,7 +240,6 @@ CHECKS["C04"] = {
 
 NOT_APPLICABLE = {
     "C06": "multi-process cluster, fault schedules and eventual convergence (liveness); async-raft internals are an external crate (DESIGN §6)",
-    "C08": "snapshot installation across processes through actix future chains whose only effects are messages to other actors (DESIGN §6)",
     "C15": "convergence after quiescence across nodes: liveness over message schedules and node failures (DESIGN §6)",
 }
 
@@ -265,3 +264,27 @@ CHECKS["C16"]["text"] += " An always-on BOUNDED stand-in covers the token store 
 CHECKS["C18"]["text"] += " An always-on BOUNDED stand-in covers the chain stored user record -> login session -> request for 20 privilege groups (prost round trip, From<UserDo>, user_namespace_privilege!)."
 CHECKS["C19"]["text"] += _BEHIND + "publish histories with batch size 3, a restart + log replay after every prefix and further publishes: every id drawn above every earlier one."
 CHECKS["C07"]["text"] += " The start-up stand-in (real start-up sequence over a real data directory, bounded) and the history-id stand-in also run for this property (replay path against the leader path)."
+
+
+# ---- third build round: C08 claimed partially (T20: actor future chains lambda-lifted mechanically)
+CHECKS["C08"] = {
+    "text": "PARTIAL. Proof (Verus, unbounded, effect log T17 + actor-future-chain transformation T20) of the handler a follower runs when the Raft core has installed a snapshot: "
+            "the real StateApplyManager::apply_snapshot — its `async move {..}.into_actor(self).map(..).wait(ctx)` chain is lambda-lifted mechanically on every run (block body verbatim) — "
+            "sends the membership recorded in the snapshot header (member list, joint-consensus list only when present, address table) to the index manager first and then hands EVERY record of "
+            "the snapshot file, in file order, to the component that owns its tree (the same function of the record as the start-up path, snap_effs), nothing else; "
+            "Handler<StateApplyRequest>::handle carries this for the ApplySnapshot message; StateApplyManager::do_load_snapshot (loop over the reader, any number of records). "
+            "The obligation failed on the tree as found (the record load was commented out: finding S22, repaired by 14576d3). "
+            "What a follower SERVES after an install is decided only by an always-on BOUNDED stand-in through the real FileStore (RaftStorage) API: 84 (history, compaction point, follower lag) runs, "
+            "also after a restart of the follower.",
+    "note": "KNOWN FINDINGS on the unchanged tree (bounded stand-in, known_findings.json): S23 a follower keeps serving keys the installed snapshot no longer holds (components merge, nothing is cleared); "
+            "S24 a follower whose log ends before the snapshot refuses every entry behind it (delete_through None mapped to SplitOff(0), pointer range put in front of the open log). "
+            "Assumed: A-WAIT (actix runs the waited future and its map closure before the next message; checked that nothing effectful follows the chain), A-ACTOR (what a component does with a record: bounded only), "
+            "SnapshotReader's contract (header / records / readability as uninterpreted functions of the file image), the snapshot transfer itself (async-raft chunk stream, network), FileStore::finalize_snapshot_installation's "
+            "message order, RaftSnapshotManager::install_snapshot (catalogue) and RaftLogManager (pointer log) — bounded stand-in only; several processes: not modelled (two actor sets in one process).",
+    "design_ref": "DESIGN.md §0.10",
+    "technique": "contract-based deductive verification (Verus) of functions extracted verbatim from /repo on every run; actor future chains lambda-lifted mechanically (T20); bounded native stand-in for the served state",
+}
+CHECKS["C01"]["text"] += (" Third build round: the start-up chain itself is under contract (T20): StateApplyManager::{load_snapshot, load_log, load_complete, do_load_snapshot} — the snapshot manager is asked for the last "
+                          "snapshot, every record of the file it names goes to the component that owns its tree in file order, then ONE replay request for exactly [snapshot_next_index, last_applied_log + 1) with a loader "
+                          "wired to this node's components, then the end-of-loading announcements, nothing else.")
+CHECKS["C07"]["text"] += " Third build round: StateApplyManager::load_log (the replay request names exactly the entries behind the snapshot) is under contract (T20)."
